@@ -22,7 +22,7 @@ EXPLANATION = (
     "time_limit + 1); (R4) observation leaves whose value is a literal (jnp.array(c), zeros, ones, full) lie inside the "
     "spec's literal bounds and have the spec's dtype category; (R5) the extent used in the bound of a coordinate field "
     "is the extent of the axis that field indexes (non-square grids; shared engine with C07); (R6) leaves that are a "
-    "direct jax.random.uniform/randint draw lie inside the declared literal box; (R7) where the dtype category (bool / int / float) of a reward or observation leaf follows from literals, explicit dtype arguments and JAX promotion, it equals the category declared by the spec. Not decided: dtypes and bounds of "
+    "direct jax.random.uniform/randint draw lie inside the declared literal box; (R7) where the dtype category (bool / int / float) of a reward or observation leaf follows from literals, explicit dtype arguments and JAX promotion, it equals the category declared by the spec; (R8) where the symbolic shape of an observation leaf follows from array constructors, indexing, reductions, stacking and broadcasting, it equals the declared spec shape (rank, literal sizes, and which configuration extent sits on which axis). Not decided: dtypes and bounds of "
     "computed arrays (needs numeric abstract interpretation of JAX); that step accepts action_spec.generate_value() "
     "(behavioural; its spec side is C16.R5).")
 
@@ -295,6 +295,9 @@ def check(tier: str) -> Result:
                             n_dt += 1
                             res.add("C01.R7", s2, f2, f"Observation.{path} has the declared dtype category ({w})", c == w,
                                     f"value {txt(alt, 3, 90)} is {c}" + ("" if c == w else f": the spec declares {w}"))
+    # ---------------------------------------------------------------- R8 shapes of observation leaves
+    from . import shape_rules
+    n_shape = shape_rules.obs_shape_obligations(res, tree, "C01.R8")
     # ---------------------------------------------------------------- R2 (shared with C03)
     from . import c03
     r3 = c03.check(tier)
@@ -304,7 +307,7 @@ def check(tier: str) -> Result:
     # ---------------------------------------------------------------- R5
     n_axis = axis_rules.add_obligations(res, tree, "C01.R5", scope="spec")
     res.analysed = {"environments": len(analyses(tree)), "nested_spec_nodes": n_specs, "observation_leaves": n_leaves,
-                    "literal_leaves_compared": n_lit, "sampled_leaves_compared": n_samp, "axis_bound_sites": n_axis, "dtype_categories_compared": n_dt}
+                    "literal_leaves_compared": n_lit, "sampled_leaves_compared": n_samp, "axis_bound_sites": n_axis, "dtype_categories_compared": n_dt, "leaf_shapes_compared": n_shape}
     if n_specs < 31:
         raise AnalysisError(f"only {n_specs} specs.Spec nodes analysed (hand-confirmed minimum 31: 23 top-level + 8 nested)")
     res.assumptions = ["Spec.validate / generate_value map children by keyword onto the constructor (jumanji/specs.py, checked by C16.R5)",
